@@ -225,4 +225,11 @@ package db
 //@   before[reads-current-value] call unmarshalDocumentWithXattrs#1 $3 == currentValue && $4 == currentXattrs && $5 == cas
 //@   before[callback-after-reload] call documentUpdateFunc#1 called(unmarshalDocumentWithXattrs, 1) && isNilErr(callres(unmarshalDocumentWithXattrs, 1, 1))
 //@   before[callback-carries-sequence] call documentUpdateFunc#1 $5 == docSequence && $6 == unusedSequences
+// (C14) every invocation recomputes the pre-write leaf attachment set from the document IT unmarshalled (a CAS retry must
+// not reuse the snapshot of an earlier attempt), and hands exactly that set to the obsolete-attachment sweep
+//@   also C14: previous-set-recomputed, previous-set-of-read-doc, previous-set-stored, previous-set-error-skips
+//@   ensures[previous-set-recomputed] called(unmarshalDocumentWithXattrs, 1) && isNilErr(callres(unmarshalDocumentWithXattrs, 1, 1)) ==> called(getAttachmentIDsForLeafRevisions, 1)
+//@   before[previous-set-of-read-doc] call getAttachmentIDsForLeafRevisions#1 called(unmarshalDocumentWithXattrs, 1) && isNilErr(callres(unmarshalDocumentWithXattrs, 1, 1)) && $2 == callres(unmarshalDocumentWithXattrs, 1, 0)
+//@   before[previous-set-stored] call documentUpdateFunc#1 called(getAttachmentIDsForLeafRevisions, 1) && previousAttachments == callres(getAttachmentIDsForLeafRevisions, 1, 0)
+//@   before[previous-set-error-skips] call ErrorfCtx#1 !isNilErr(callres(getAttachmentIDsForLeafRevisions, 1, 1)) && skipObsoleteAttachmentsRemoval
 //@   ensures[update-computed] isNilErr(err) ==> called(documentUpdateFunc, 1) && isNilErr(callres(documentUpdateFunc, 1, 8)) && called(MarshalWithXattrs, 1)
